@@ -21,7 +21,7 @@ SPEC_BUILTINS = ('forall', 'exists', 'implies', 'iff', 'old', 'at', 'ite', 'fora
                  'set_eq', 'set_minus', 'set_union', 'set_add', 'set_del', 'empty_set',
                  'disjoint', 'has_key', 'keys_eq', 'seq_eq', 'let', 'setof', 'dq_lo', 'dq_hi', 'dq_at',
                  'bi8', 'bu8', 'bi16', 'bu16', 'bu24', 'bi32', 'bu32', 'bi64', 'bcat', 'braw', 'bempty', 'blen', 'beq',
-                 'written', 'content', 'utf8', 'bmark', 'since', 'sum_of', 'crc_of', 'summands', 'stream_front')
+                 'written', 'content', 'utf8', 'bmark', 'since', 'sum_of', 'crc_of', 'summands', 'stream_front', 'bslice')
 
 
 class Ctx(object):
@@ -648,6 +648,25 @@ class ExprMixin(object):
       r = f(a.t, b.t)
       st.assume(self.strlen(r) == self.strlen(a.t) + self.strlen(b.t))
       yield st, V(STR, r)
+      return
+    if isinstance(op, ast.Mult) and isinstance(a, V) and a.ty.k == 'list' and is_num(b):
+      # [x] * n : a fresh list of n copies of the single element
+      n0 = z3.simplify(self.list_len(st, a))
+      if not (z3.is_int_value(n0) and n0.as_long() == 1):
+        raise Unsupported('list repetition of a list that is not a one-element literal (line %s)' % getattr(node, 'lineno', '?'))
+      elem = self.list_get(st, a, z3.IntVal(0))
+      cnt = num_term(b, False)
+      r = self.new_ref(st)
+      res = V(a.ty.with_opt(False), r)
+      self.set_list_len(st, res, z3.If(cnt > 0, cnt, z3.IntVal(0)))
+      k = z3.Int(fresh_name('k'))
+      from .types import flatten
+      from .state import to_terms
+      for (suf, so), t in zip(flatten(a.ty.args[0]), to_terms(elem, a.ty.args[0])):
+        key = self.ckey(a.ty, 'items') + suf
+        arr = self.arr(st, key, [I, I, so])
+        st.heap[key] = z3.Store(arr, r, z3.K(I, t))
+      yield st, res
       return
     if isinstance(op, ast.Sub) and isinstance(a, V) and a.ty.k == 'set' and b.ty.k == 'set':
       yield st, self.set_binop(st, 'minus', a, b)
